@@ -30,4 +30,36 @@ PROPS = {
         "floors": {"quick": {"evaluations": 20000, "distinct_nontrivial": 500, "ab_chunked_runs": 5000, "c_back_seeks_accepted": 100000, "ab_suffix_runs": 5000}, "thorough": {"evaluations": 300000, "distinct_nontrivial": 1000}},
         "assumptions": ["SeekFrom::End is rejected by design and not part of the model", "embedded markers are of the stream's own framing (the other framing's marker is removed: framing auto-detection is not position independent by design)", "sources never return errors"],
     },
+    "C05": {
+        "level": "exploration",
+        "quick": cfg(16, 30),
+        "thorough": cfg(16, 600),
+        "rule": "lifecycle scenarios (1-4 ECUs, 1-8 boots, durations/off-times/delays drawn from sets around the 1/2/10/30/60 s thresholds of the detector; modes realistic, hostile (missing/zero/beyond-reception/u32::MAX timestamps, control requests, reception going backwards, suspend/resume shifts, overlapping boots), targeted confirm-then-merge patterns, clean; 1/8 with a second pass over the pre-populated table; 1/60 with a rendezvous inflow) run through parse_lifecycles_buffered_from_stream; every message carries a unique (index, payload stamp). Non-trivial = >=1 buffered delivery and >=2 lifecycles; distinct = (mode, ecus, lifecycles, merges per branch, resumed, deliveries per release path bucket, confirmations).",
+        "floors": {"quick": {"evaluations": 500000, "distinct_nontrivial": 5000, "path_LcOutMergeFlush": 1000, "path_LcOutConfirmOwn": 10000, "path_LcOutConfirmOther": 10000, "path_LcOutFinalFlush": 10000, "path_LcOutDirect": 10000, "path_LcMergeBuffered": 1000, "path_LcMergeUnbuffered": 1000}, "thorough": {"evaluations": 5000000, "distinct_nontrivial": 20000}},
+        "assumptions": ["hook census (feature verif_hooks) is used as evidence of reach only, never as oracle", "message streams are at most 400 messages long (the 100 000-index regular refresh is reached through index strides)"],
+    },
+    "C06": {
+        "level": "exploration",
+        "quick": cfg(16, 40),
+        "thorough": cfg(16, 600),
+        "rule": "scenarios as C05; at EVERY call of the outflow closure the lifecycle of the message being delivered is looked up (a) through a ReadHandle in the delivering thread and (b) by a checker thread (rendezvous round trip while the detector is blocked inside outflow); 0-2 free running reader threads iterate the table; consumer pacing none/yield/spin/stall and pause hooks between update and refresh and before each outflow. Non-trivial = >=1 delivery through a buffered release path; distinct = (set of release paths used, pacing class, hook class, probe kind, readers, merge branches, pre-populated, ecus).",
+        "floors": {"quick": {"evaluations": 20000, "distinct_nontrivial": 300, "deliveries_probed_same_thread": 1000000, "deliveries_probed_cross_thread": 500000, "path_LcOutMergeFlush": 1000, "path_LcOutConfirmOwn": 10000, "path_LcOutConfirmOther": 5000, "path_LcOutFinalFlush": 10000, "path_LcOutDirect": 10000}, "thorough": {"evaluations": 300000, "distinct_nontrivial": 1000}},
+        "assumptions": ["evmap makes a refreshed entry visible to all read handles once refresh() returned (dependency contract)", "schedules are sampled (pacing, pause hooks); Miri/TSan shards in the thorough tier look for races in the executed paths"],
+    },
+    "C07": {
+        "level": "exploration",
+        "quick": cfg(16, 30),
+        "thorough": cfg(16, 600),
+        "rule": "scenarios as C05 plus 1/12 'many lifecycles' traces (8-38 boots per ECU with several suspend/resume chains whose start estimates cross); after the detector returned: histogram of msg.lifecycle over all delivered messages (all passes sharing the table) vs nr_msgs of every listed lifecycle, sum, no invalidated entry, get_sorted_lifecycles_as_vec produces a permutation with every resumed lifecycle after its origin (origin id from hook accessor) and sorted by start time when no resume was detected. Non-trivial = >=1 merge or >=1 resume; distinct = (mode, lifecycles, merges, resumed, confirmations, skipped merges, pre-populated).",
+        "floors": {"quick": {"evaluations": 500000, "distinct_nontrivial": 2000, "listings_with_21_or_more_entries": 5000, "path_LcMergeUnbuffered": 1000}, "thorough": {"evaluations": 5000000, "distinct_nontrivial": 5000}},
+        "assumptions": ["runs in which the detector panics are C05 violations and are only counted here"],
+    },
+    "C08": {
+        "level": "exploration",
+        "quick": cfg(16, 30),
+        "thorough": cfg(16, 600),
+        "rule": "clean traces: 1-4 ECUs interleaved by reception time / arbitrarily / in blocks, 1-8 boots each, one constant delay per boot (0..70 s), arbitrary message order within a boot, off-time >= 1 ms, first timestamp 0 and boots of 1-2 messages included, timestamps multiples of 0.1 ms; stream order and reception order both separate consecutive boots. Ground truth map message -> (ECU, boot) vs lifecycle ids; start = boot+delay, end = start+max timestamp, nr_msgs. 1/10 of the traces are generated inside the known-finding class (calculated start of a boot not after the calculated end of the previous one). Non-trivial = >=2 boots on one ECU; distinct = (ecus, boots, resume flags, class, delay pattern).",
+        "floors": {"quick": {"evaluations": 500000, "distinct_nontrivial": 5000, "traces_outside_overlap_class": 400000, "resume_flagged_lifecycles": 10000}, "thorough": {"evaluations": 5000000, "distinct_nontrivial": 10000}},
+        "assumptions": ["the exactness of start/end relies on timestamps being multiples of 0.1 ms (the resolution of DLT timestamps)"],
+    },
 }
